@@ -12,9 +12,10 @@ import time
 import warnings
 
 from .. import flowlib as fl
+from . import _c07readers as rdrs
 from ..engine import REPO, InfraError
 
-MODULES = ["Iodata.Props.C07"]
+MODULES = ["Iodata.Props.C07", "Iodata.Props.C07Readers"]
 RULE = (
     "flow (controlled): the REAL load_one/load_many run against a scripted format module whose parser performs a "
     "scripted sequence of next(lit)/lit.back() calls (also past the end of the file) and then returns or raises any "
@@ -33,11 +34,14 @@ ASSUMPTIONS = [
     "Python semantics of try/except, with, generators (PEP 479, close() -> GeneratorExit) as transcribed in Model/Flow.lean",
     "the file exists and is readable (open does not fail) — the property's domain",
     "callees do not raise GeneratorExit themselves inside load_many (the model uses that class for the user's discard)",
-    "NOT PROVED: termination and outcome classes of the individual format parsers on arbitrary content; this part is "
-    "direct search over mutated corpus files (exploration support), with a per-load wall-clock limit",
+    "NOT PROVED for the formats without a Lean reader (all but those listed in proved_reader_formats): termination and "
+    "outcome classes of the parser on arbitrary content; that part is direct search over mutated corpus files "
+    "(exploration support), with a per-load wall-clock limit",
     "lineno convention: LineIterator increments lineno before reading, so after running into the end of a file with N "
     "lines the reported number is N+1 (the line that could not be read); stated as lineno = #next - #back",
 ]
+RULE = RULE + ". " + rdrs.RULE
+ASSUMPTIONS = ASSUMPTIONS + rdrs.ASSUMPTIONS
 TIME_LIMIT = {"quick": 900, "thorough": 5400}
 PER_LOAD_LIMIT = 90
 
@@ -116,6 +120,7 @@ def correspond(ctx):
     finally:
         shutil.rmtree(work, ignore_errors=True)
     ctx.corr("flow", reqs, outs, nontriv, classes)
+    rdrs.correspond(ctx)
 
 
 # ----------------------------------------------------------------------------------------------------
@@ -433,11 +438,13 @@ def search(ctx):
             ctx.extra_cov["loads_skipped_because_the_intact_file_is_slow"] = [t[0] for t in unresolved]
             for t in unresolved:
                 ctx.hist[f"search-load:{t[2]}/inconclusive-slow-file"] += 1
-
+    rdrs.search(ctx)
 
 
 def replay(ctx, obj):
     inp = obj["input"]
+    if inp.get("kind") == "rdr":
+        return rdrs.replay(ctx, obj)
     r = _worker(tuple(inp["task"]))
     if r["verdict"] == "timeout":
         return str(obj.get("signature", "")).startswith("does-not-terminate")
